@@ -1263,8 +1263,11 @@ func (fr *frame) siteAsserts(call *ssa.Call, args []Val, st *State, reach string
 		if a.E == nil || a.After != after {
 			continue
 		}
-		target := fr.assertTarget(a)
-		if target != call {
+		if a.Occ == -1 {
+			if !fr.isAssertSite(a, call) {
+				continue
+			}
+		} else if target := fr.assertTarget(a); target != call {
 			continue
 		}
 		env := fr.ownEnv(st, fr.entry, call.Block())
@@ -1301,6 +1304,27 @@ func (fr *frame) siteAsserts(call *ssa.Call, args []Val, st *State, reach string
 		}
 		fr.oblig("assert", a.Props, call.Pos(), a.name(), reach, goal)
 	}
+}
+
+// isAssertSite: for "#*" clauses - call is the chosen call of some source line containing the text.
+func (fr *frame) isAssertSite(a *Clause, call *ssa.Call) bool {
+	e := fr.ft.e
+	if !call.Pos().IsValid() || !strings.Contains(e.sourceLine(call.Pos()), a.Site) {
+		return false
+	}
+	one := *a
+	for k := 1; k < 50; k++ {
+		one.Occ = k
+		one.Kind = "probe"
+		t := fr.assertTarget(&one)
+		if t == nil {
+			return false
+		}
+		if t == call {
+			return true
+		}
+	}
+	return false
 }
 
 func (fr *frame) assertTarget(a *Clause) *ssa.Call {
